@@ -82,14 +82,13 @@ Theorem C06_rejects_overlapping_windows : forall banks i j b1 b2 k,
 Proof. exact bank_windows_rejected. Qed.
 
 (* ---------------------------------------------------------------- build_output *)
-(* FULL layout invariant, for programs without zero-sized written items (no `#d ""`, no empty encoding) *)
+(* FULL layout invariant, for EVERY program: since the F49 repair (BitVec::write_bigint does not extend the length for an
+   empty value) the output is exactly as long as the highest written bit / filled bank *)
 Theorem C06_layout : forall mb banks nodes out items,
-  Forall no_empty_emit nodes ->
   build_output mb banks nodes = Ok (out, items) -> layout_ok banks items out = true.
 Proof. exact layout_full. Qed.
 
-(* without that restriction: everything except the exact length, for which only
-   "max of filled-bank ends and ends of WRITTEN items, zero-sized ones included" holds; and the
+(* the same clause by clause (the length as a formula: ends of filled banks and of written items WITH bits), and the
    written bits are the encodings *)
 Theorem C06_layout_partial : forall mb banks nodes out items,
   build_output mb banks nodes = Ok (out, items) ->
@@ -100,16 +99,12 @@ Theorem C06_layout_partial : forall mb banks nodes out items,
   content_ok items out = true.
 Proof. exact layout_partial. Qed.
 
-(* the full statement is FALSE of the faithful model: a zero-sized item extends the output
-   (`#addr 0x10` / `#d ""` assembles to 128 zero bits) -- finding F49 *)
-Theorem C06_layout_length_refuted : exists banks nodes out items,
-  build_output 800000000 banks nodes = Ok (out, items) /\ length_exact banks items out = false /\
-  length out = 128%nat.
-Proof.
-  exists [default_bank], [NAddr 16; NEmit []], (repeat false 128),
-         [mkItem 0 (Some 128) 0 16%Z (Some [])].
-  vm_compute. auto.
-Qed.
+(* regression for F49 (repaired): `#addr 0x10` / `#d ""` -- a zero-sized item is recorded at its position but writes
+   nothing: the output stays empty (it used to be 128 zero bits) *)
+Theorem C06_zero_sized_item_writes_nothing :
+  build_output 800000000 [default_bank] [NAddr 16; NEmit []] = Ok ([], [mkItem 0 (Some 128) 0 16%Z (Some [])]) /\
+  length_exact [default_bank] [mkItem 0 (Some 128) 0 16%Z (Some [])] [] = true.
+Proof. vm_compute. auto. Qed.
 
 (* what pairwise_disjointb / unwritten_zero mean *)
 Theorem C06_pairwise_meaning : forall l, pairwise_disjointb l = true <->
@@ -214,7 +209,6 @@ Open Scope Z_scope.
 
 Theorem C06_resolver_output_layout : forall indexed defs ps budget r,
   assemble2 indexed defs ps budget = Ok r ->
-  Forall OutputP.no_empty_emit (r_nodes r) ->
   LayoutInv.layout_ok (r_banks r) (r_items r) (r_bits r) = true /\ LayoutInv.windows_ok (r_banks r) = true.
 Proof. exact Resolver2TopP.C02b_output_is_layout_ok. Qed.
 
